@@ -40,7 +40,12 @@ Inductive c12case :=
          (hang : bool)      (* the watchdog fired: some call did not return *)
          (entries : N)      (* loaded entries after the last event (0 when hang) *)
          (fresh : N)        (* a fresh request afterwards: 0 ok, 1 error, 2 hung, 3 not attempted (hang) *)
-         (dup : bool).      (* two callbacks ran at once on one directory with different *shard.Shard *)
+         (dup : bool)       (* two callbacks ran at once on one directory with different *shard.Shard *)
+(* one REAL request handler (0 insert, 1 update, 2 delete, 3 search, 4 shard info) of a live node, parked inside
+   DoWithShard at do:running until the idle timer of its shard had fired and the cleanup routine stood queued on the
+   entry's write lock (reached; when the harness could not reach that state the run is still judged), then released: the request returned / with an error / the cleanup routine
+   finished afterwards / a fresh request loaded the shard again *)
+| CRpc (handler : N) (reached returned failed unloaded freshOk : bool).
 
 (* ------------------------------------------------------------------ *)
 (* coarse machine *)
@@ -227,6 +232,10 @@ Definition verdict (c : c12case) : N :=
           (negb dup, 106);
           (Nat.eqb (length obs) (length threads)
            && existsb (outcome_eqb observed) (model_outcomes fixedFlag nshards threads sched), 201) ]%N
+  | CRpc handler reached returned failed unloaded freshOk =>
+      (* the model's outcome for this schedule (run_ex_unload below: request ok, then unloaded, no entry left)
+         presupposes that the callback returns; the observation is judged on its own *)
+      first_fail [ (returned, 107); (negb failed, 108); (unloaded, 109); (freshOk, 104) ]%N
   end.
 
 Fixpoint bad_from (i : N) (cs : list c12case) : list (N * N) :=
